@@ -116,6 +116,7 @@ void vp_log_open(int fd);
 void vp_logf(const char *fmt, ...) __attribute__((format(printf, 1, 2)));
 void vp_log_hex(const uint8_t *p, size_t n);
 void vp_log_flush(void);
+void vp_install_crash_flush(void);
 
 void vp_iface_reset_capture(vp_iface *ifc);
 void vp_begin_input(void);
